@@ -93,7 +93,7 @@ def replay_case(chk, payload, prefixes):
     if any(rp["fault"]):
         brow = drive.run_case({"prog": rp["prog"], "flat": flat, "cfg": rp["cfg"], "fault": [0, 0]})
         base = stage.base_of(brow)
-    jr = stage.judge_row(1, case["prog"], case["cfgs"][0], row, base=base, skips=case["skips"], hookcl=case.get("hookcl", False))
+    jr = stage.judge_row(1, case["prog"], case["cfgs"][0], row, base=base, skips=case["skips"], hookcl=case.get("hookcl", False), kbd=case.get("kbd", False))
     verdicts = trace.judge_rows(chk, "Run_Trace", [jr], chunks=1)
     chk.impl_traces = 1
     chk.sample({"replayed": rp})
